@@ -48,6 +48,13 @@ PROBES: dict = {
         PROG([ASSIGN("xs", LIST(F(0.5), F(1.5))), APPEND("xs", BIN("*", AREAD(), F(0.5))), WRITE(INDEX(V("xs"), I(2)))], ain=[3], pid="probe-fappend")]),
     "loop-born-variable-reset": ("C01", "loop-born-carried", [
         PROG([], [IF([(CMP(AREAD(), (">", I(0))), [ASSIGN("z", I(5))])]), IF([(CMP(AREAD(), (">", I(0))), [WRITE(V("z"))])])], ain=[1, 1, 0, 1, 0, 1], npass=3, pid="probe-loopborn")]),
+    "operand-evaluation-order": ("C01", "multi-effect-operands", [
+        PROG([ASSIGN("c", I(0)), WRITE(CALL("mix", CALL("nxt"), CALL("nxt"))), WRITE(V("c"))],
+             defs={**_NXT, "mix": DEF(["a", "b"], [RETURN(BIN("+", BIN("*", V("a"), I(10)), V("b")))])}, pid="probe-order-call-args"),
+        PROG([ASSIGN("c", I(0)), ASSIGN("xs", LIST(CALL("nxt"), CALL("nxt"))), WRITE(INDEX(V("xs"), I(0))), WRITE(INDEX(V("xs"), I(1)))], defs=_NXT, pid="probe-order-list-literal"),
+        PROG([ASSIGN("c", I(0)), WRITE(FSTR(CALL("nxt"), " ", CALL("nxt")))], defs=_NXT, pid="probe-order-fstring"),
+        PROG([WRITE(CALL("mix", AREAD(), AREAD()))], ain=[3, 4],
+             defs={"mix": DEF(["a", "b"], [RETURN(BIN("+", BIN("*", V("a"), I(10)), V("b")))])}, pid="probe-order-reads")]),
     # ---- C03
     "len-folded-stale": ("C03", "len-after-nested-mutation", [
         PROG([ASSIGN("xs", LIST(I(1)))], [APPEND("xs", AREAD()), WRITE(CALL("len", V("xs")))], ain=[5, 6, 7], npass=3, pid="probe-len-loop"),
